@@ -5,7 +5,10 @@
    string form, which shows insertion order and numeric spelling): it is kept as the Definition
    [C11_eq_implies_same_str], characterised by [C11_hash_char] and refuted by the [C11_refuted_*] witnesses.
    Likewise "the pickle round trip returns an equal instance" ([C11_pickle_statement]) is refuted: __getstate__
-   keeps declared fields only. *)
+   keeps declared fields only (undeclared, additional attributes are lost).  The internal state is NOT lost any
+   more: the state carries `_none_fields` and __setstate__ sets `_instantiated` (repaired in the library), so
+   the unpickled copy of an instance that stores declared fields only is equal to it whatever is None-marked
+   ([C11_copy_eq]) and is live again ([C11_unpickled_guard], [C11_unpickled_hook_runs]). *)
 From Coq Require Import ZArith NArith String List Bool.
 Import ListNotations.
 From TP Require Import Base.PyVal Fields.FieldAst Fields.SetChain Struct.Shapes Struct.Instance Struct.EqHash Struct.EqHashProofs.
@@ -61,7 +64,7 @@ Section C11.
   Qed.
 
   (* copy.copy / copy.deepcopy return an instance equal to the original with the same string form (hash);
-     the pickle round trip does so when only declared fields are stored and no name is None-marked *)
+     the pickle round trip does so when only declared fields are stored *)
   Theorem C11_copy_eq : forall x,
       (inst_eq c undef (copy_inst x) x = true /\
        inst_str num_str str_repr enum_vrepr (copy_inst x) = inst_str num_str str_repr enum_vrepr x) /\
@@ -159,33 +162,51 @@ Proof.
   apply (S (cA false false) false); try assumption. reflexivity.
 Qed.
 
-(* pickle: an undeclared (additional) attribute is lost; a None-marked name is lost *)
+(* pickle: an undeclared (additional) attribute is lost *)
 Theorem C11_refuted_pickle :
-  (exists x, wf_inst x = true /\ inst_eq (cA true false) false (pickle_rt (cA true false) x) x = false) /\
-  (exists x, wf_inst x = true /\ inst_eq (cA false false) true (pickle_rt (cA false false) x) x = false).
+  exists x, wf_inst x = true /\ inst_eq (cA true false) false (pickle_rt (cA true false) x) x = false.
 Proof.
-  split.
-  - exists (mk [(s2p "n", PNum (NInt 1)); (s2p "zz", PNum (NInt 2))]). split; vm_compute; reflexivity.
-  - exists {| i_cls := s2p "A"; i_attrs := [(s2p "n", PNum (NInt 1))]; i_nones := Some [s2p "x"]; i_live := true |}.
-    split; vm_compute; reflexivity.
+  exists (mk [(s2p "n", PNum (NInt 1)); (s2p "zz", PNum (NInt 2))]). split; vm_compute; reflexivity.
 Qed.
 
 Theorem C11_pickle_statement_refuted : ~ C11_pickle_statement.
 Proof.
-  intro S. destruct C11_refuted_pickle as [[x [W E]] _].
+  intro S. destruct C11_refuted_pickle as [x [W E]].
   rewrite (S (cA true false) false x) in E; [discriminate | reflexivity | exact W].
 Qed.
 
-(* F7: the unpickled copy has lost `_instantiated`: Structure.__setattr__ (Struct/Instance.v) on an
-   immutable class refuses the original and accepts the unpickled copy *)
-Theorem C11_refuted_unpickled_guard :
-  exists x v,
-    i_live x = true /\
-    snd (setattr (fun _ _ => false) [] (cA false true) (i_live x) (i_attrs x) (s2p "n") v) = Raised ValueError /\
-    setattr (fun _ _ => false) [] (cA false true) (i_live (pickle_rt (cA false true) x))
-            (i_attrs (pickle_rt (cA false true) x)) (s2p "n") v = ([(s2p "n", v)], Done).
+(* ... whereas a None-marked name survives: the instance that used to come back unequal (n stored, x None-marked,
+   _enable_undefined_value) is equal to its unpickled copy, in both directions, with the same string *)
+Theorem C11_pickle_keeps_none_marks :
+  let x := {| i_cls := s2p "A"; i_attrs := [(s2p "n", PNum (NInt 1))]; i_nones := Some [s2p "x"]; i_live := true |} in
+  wf_inst x = true /\ pickle_safe (cA false false) x = true /\
+  inst_eq (cA false false) true (pickle_rt (cA false false) x) x = true /\
+  nones_list (pickle_rt (cA false false) x) = [s2p "x"].
+Proof. repeat split; vm_compute; reflexivity. Qed.
+
+(* the unpickled copy is live (`_instantiated` is set again) for EVERY class and instance: Structure.__setattr__
+   (Struct/Instance.v) on an immutable class refuses the unpickled copy as it refuses the original (F7, repaired) *)
+Theorem C11_unpickled_guard : forall re_match e c x n v,
+    c_immutable c = true ->
+    setattr re_match e c (i_live (pickle_rt c x)) (i_attrs (pickle_rt c x)) n v
+    = (i_attrs (pickle_rt c x), Raised ValueError).
 Proof.
-  exists (mk [(s2p "n", PNum (NInt 1))]), (PNum (NInt 2)). repeat split; vm_compute; reflexivity.
+  intros re_match e c x n v H. unfold setattr. cbn [pickle_rt i_live]. rewrite H. reflexivity.
+Qed.
+
+(* ... and an assignment to the unpickled copy that the class's __validate__ hook rejects raises and leaves the
+   copy as it was: the hook runs again (it runs iff the instance is `_instantiated`) *)
+Theorem C11_unpickled_hook_runs : forall re_match e c x n v fd nf,
+    c_immutable c = false -> find_field (c_fields c) n = Some fd ->
+    (c_ignore_none c && is_none_val v && negb (is_required c n)) = false ->
+    vset re_match e (fd_field fd) v = Ok nf ->
+    (fd_immutable fd && alist_has (i_attrs (pickle_rt c x)) n) = false ->
+    hook_ok (c_hook c) (alist_set (i_attrs (pickle_rt c x)) n nf) = false ->
+    setattr re_match e c (i_live (pickle_rt c x)) (i_attrs (pickle_rt c x)) n v
+    = (i_attrs (pickle_rt c x), Raised ValueError).
+Proof.
+  intros re_match e c x n v fd nf Hi Hf Hn Hv Him Hh. unfold setattr.
+  change (i_live (pickle_rt c x)) with true. rewrite Hi, Hf, Hn, Hv, Him, Hh. reflexivity.
 Qed.
 
 Print Assumptions C11_refuted_order.
@@ -195,7 +216,9 @@ Print Assumptions C11_refuted_none_vs_absent.
 Print Assumptions C11_eq_implies_same_str_refuted.
 Print Assumptions C11_refuted_pickle.
 Print Assumptions C11_pickle_statement_refuted.
-Print Assumptions C11_refuted_unpickled_guard.
+Print Assumptions C11_pickle_keeps_none_marks.
+Print Assumptions C11_unpickled_guard.
+Print Assumptions C11_unpickled_hook_runs.
 
 (* ------------------------------------------------------------------ non-vacuity *)
 
@@ -285,9 +308,10 @@ Theorem C11_shallow_copy :
                       cop_pre h' y [] witness_op /\ abs 4 (cop_heap h' witness_op) x <> abs 4 h' x).
 Proof. exact (conj copy_shallow_value copy_shallow_shares). Qed.
 
-(* the pickle round trip under the __getstate__ policy read from the CURRENT source (Gen/CopySites.v): equal
-   to the original with the same string whenever only declared fields are stored and no name is None-marked;
-   stops compiling when __getstate__ no longer keeps every declared name present in __dict__ *)
+(* the pickle round trip under the __getstate__ / __setstate__ policy read from the CURRENT source
+   (Gen/CopySites.v): equal to the original with the same string whenever only declared fields are stored, live
+   again and with the same None-marked names; stops compiling when __getstate__ no longer keeps every declared
+   name present in __dict__ or `_none_fields`, or __setstate__ no longer sets `_instantiated` *)
 Theorem C11_pickle_eq_today : forall c undef num_str str_repr enum_vrepr x,
     pickle_safe c x = true ->
     exists y, pickle_rt_pol state_sites c x = Some y /\
@@ -298,10 +322,28 @@ Proof.
   exact (pickle_pol_eq num_str str_repr enum_vrepr state_sites c undef x state_sites_safe).
 Qed.
 
+Theorem C11_unpickled_live_today : forall c x y,
+    pickle_rt_pol state_sites c x = Some y -> i_live y = true /\ nones_list y = nones_list x.
+Proof. intros c x y. exact (safe_restore_live state_sites c x y state_sites_safe). Qed.
+
+(* a state without `_none_fields` loses the None-marked names; rebuilding by the interpreter's default
+   (no __setstate__) loses `_instantiated` *)
+Theorem C11_state_without_nones_refuted :
+  exists x y, pickle_safe gs_class x = true /\
+              pickle_rt_pol {| sp_fields := GsAllFields; sp_filter := GsInDict; sp_value := GsFieldValue;
+                               sp_internal := GsNoInternal; sp_restore := GsRestoreInstantiated |} gs_class x = Some y /\
+              inst_eq gs_class true y x = false.
+Proof. exact state_without_nones_refuted. Qed.
+
+Theorem C11_default_restore_not_live :
+  forall sp c x y, sp_restore sp = GsRestoreDefault -> pickle_rt_pol sp c x = Some y -> i_live y = false.
+Proof. exact default_restore_not_live. Qed.
+
 (* a __getstate__ that keeps only truthy values loses a stored 0 *)
 Theorem C11_getstate_truthy_refuted :
     exists x y, pickle_safe gs_class x = true /\
-                pickle_rt_pol {| sp_fields := GsAllFields; sp_filter := GsTruthy; sp_value := GsFieldValue |} gs_class x = Some y /\
+                pickle_rt_pol {| sp_fields := GsAllFields; sp_filter := GsTruthy; sp_value := GsFieldValue;
+                                 sp_internal := GsNonesKept; sp_restore := GsRestoreInstantiated |} gs_class x = Some y /\
                 inst_eq gs_class true y x = false.
 Proof. exact getstate_truthy_refuted. Qed.
 
@@ -317,6 +359,9 @@ Print Assumptions C11_pickle_independent.
 Print Assumptions C11_unsafe_policy_witness.
 Print Assumptions C11_shallow_copy.
 Print Assumptions C11_pickle_eq_today.
+Print Assumptions C11_unpickled_live_today.
+Print Assumptions C11_state_without_nones_refuted.
+Print Assumptions C11_default_restore_not_live.
 Print Assumptions C11_getstate_truthy_refuted.
 Print Assumptions C11_separation_check_sound.
 
@@ -523,9 +568,42 @@ Theorem C11_src_getstate_is_model :
           mcall (fld_ref n) (s2p "__serialize__") [v] =
           Src_Field_serialize (the_world num_str str_repr enum_vrepr str_hash mcall h) (fld_ref n) v) ->
          Src_Structure_getstate (the_world num_str str_repr enum_vrepr str_hash mcall h)
-           (inst_obj x t) = Ok (PDict (skeys (state_of c x))) /\
+           (inst_obj x t) = Ok (PDict (skeys (full_state c x))) /\
          (forall k : pystr, alist_get (state_of c x) k = alist_get (i_attrs (pickle_rt c x)) k).
 Proof. exact C11_src_getstate. Qed.
+
+(* Structure.__setstate__ of the source on a new object, for ANY state with distinct names *)
+Theorem C11_src_setstate_is_model :
+  forall (num_str : num -> pystr) (str_repr : pystr -> pystr)
+           (enum_vrepr : pystr -> pystr -> pystr) (str_hash : pystr -> Z)
+           (mcall : pyval -> pystr -> list pyval -> res pyval) (h : heap)
+           (cls : pystr) (st : list (pystr * pyval)),
+         NoDup (map fst st) ->
+         Src_Structure_setstate (the_world num_str str_repr enum_vrepr str_hash mcall h) (PStruct cls []) (PDict (skeys st)) =
+         Ok (PStruct cls (alist_set (if alist_has st n_none_fields then st else alist_set st n_none_fields (PSet false []))
+                                    n_instantiated (PBool true))).
+Proof. exact C11_src_setstate. Qed.
+
+(* the whole round trip: __getstate__, cls.__new__(cls), __setstate__ of the source yield [pickle_rt c x] *)
+Theorem C11_src_unpickle_is_model :
+  forall (c : classdef) (undef : bool) (num_str : num -> pystr) (str_repr : pystr -> pystr)
+           (enum_vrepr : pystr -> pystr -> pystr) (str_hash : pystr -> Z)
+           (mcall : pyval -> pystr -> list pyval -> res pyval) (h : heap)
+           (x : inst) (t : option pyval) (bases : list pystr),
+         class_view h c undef (i_cls x) ->
+         mro_view (the_world num_str str_repr enum_vrepr str_hash mcall h) c (i_cls x) bases ->
+         c_ok c = true ->
+         fields_nodup c = true ->
+         public_attrs x = true ->
+         (forall (n : pystr) (v : pyval),
+          is_field c n = true ->
+          mcall (fld_ref n) (s2p "__serialize__") [v] =
+          Src_Field_serialize (the_world num_str str_repr enum_vrepr str_hash mcall h) (fld_ref n) v) ->
+         unpickle (the_world num_str str_repr enum_vrepr str_hash mcall h) (inst_obj x t) =
+           Ok (PStruct (i_cls x) (state_of c x ++ internals (pickle_rt c x) None)) /\
+         (forall k : pystr, alist_get (state_of c x ++ internals (pickle_rt c x) None) k =
+                            alist_get (inst_dict_of (pickle_rt c x) None) k).
+Proof. exact C11_src_unpickle. Qed.
 
 Theorem C11_src_getstate_mro_is_model :
   forall (c : classdef) (undef : bool) (num_str : num -> pystr) (str_repr : pystr -> pystr)
@@ -543,7 +621,7 @@ Theorem C11_src_getstate_mro_is_model :
           mcall (fld_ref n) (s2p "__serialize__") [v] =
           Src_Field_serialize (the_world num_str str_repr enum_vrepr str_hash mcall h) (fld_ref n) v) ->
          Src_Structure_getstate (the_world num_str str_repr enum_vrepr str_hash mcall h)
-           (inst_obj x t) = Ok (PDict (skeys (state_of c x))).
+           (inst_obj x t) = Ok (PDict (skeys (full_state c x))).
 Proof. exact C11_src_getstate_mro. Qed.
 
 Print Assumptions C11_src_eq_is_model.
@@ -558,4 +636,6 @@ Print Assumptions C11_src_hash_nested_is_model.
 Print Assumptions C11_src_copy_is_model.
 Print Assumptions C11_src_deepcopy_is_model.
 Print Assumptions C11_src_getstate_is_model.
+Print Assumptions C11_src_setstate_is_model.
+Print Assumptions C11_src_unpickle_is_model.
 Print Assumptions C11_src_getstate_mro_is_model.
